@@ -26,7 +26,11 @@
 //!   batch/discard-policy              discard policy does not return exactly the input-stage error responses
 //!   batch/valid-query-error, batch/failing-query-ok   error response for a valid query / success for a failing one
 //!   batch/malformed-response          a response is not `{request, …}`
-//!   pipeline/sibling-responses-lost   fewer responses than expanded queries (element-wise count with the real plugins)
+//!   pipeline/itemwise-mismatch        the responses of a query are not the answers of the queries it expands into item by
+//!                                     item with the real plugins (none failing), or not the single error response the
+//!                                     first failure produces
+//!   pipeline/sibling-responses-lost   a plugin fails on one expanded query and its siblings get no response (known)
+//!   pipeline/invariant-error-loses-request   a plugin left a non-object: one invariant error, placeholder request (known)
 //!   (keys of repaired defects — request-not-echoed, query-unanswered, unknown-origin-accepted, total-not-reproducible,
 //!    batch/empty, batch/whole-batch-error, inject/non-object, grid/degenerate — fire again if the defect returns)
 //!   pipeline/query-unanswered         a query got no response at all
@@ -150,9 +154,99 @@ pub enum PluginSpec {
     LbHaversine,
     VertexRtree { tolerance_m: Option<f64> },
     EdgeRtree { tolerance_m: Option<f64> },
+    /// user-defined plugins (not built from TOML: pushed into the public `CompassApp.input_plugins`)
+    UserSplit { key: String },
+    UserFailOn { marker: String },
+    UserBreaker { key: String },
+}
+
+/// user-defined plugin: a query carrying `key` with a non-empty array is replaced by one child per element — the
+/// query minus `key`; an object element is merged key by key, any other element goes under "alt".  Other queries
+/// are left alone, so the state after it may MIX plain queries and nested arrays.
+pub struct UserSplit {
+    pub key: String,
+}
+
+impl InputPlugin for UserSplit {
+    fn process(&self, input: &mut Value) -> Result<(), InputPluginError> {
+        let alts = match input.get(&self.key).and_then(|v| v.as_array()) {
+            Some(a) if !a.is_empty() => a.clone(),
+            _ => return Ok(()),
+        };
+        let mut base = match input.as_object() {
+            Some(o) => o.clone(),
+            None => return Ok(()),
+        };
+        base.shift_remove(&self.key);
+        let children: Vec<Value> = alts
+            .into_iter()
+            .map(|alt| {
+                let mut child = base.clone();
+                match alt {
+                    Value::Object(o) => {
+                        for (k, v) in o {
+                            child.insert(k, v);
+                        }
+                    }
+                    other => {
+                        child.insert("alt".to_string(), other);
+                    }
+                }
+                Value::Object(child)
+            })
+            .collect();
+        *input = Value::Array(children);
+        Ok(())
+    }
+}
+
+/// user-defined plugin: fails on a query carrying `marker`
+pub struct UserFailOn {
+    pub marker: String,
+}
+
+impl InputPlugin for UserFailOn {
+    fn process(&self, input: &mut Value) -> Result<(), InputPluginError> {
+        if input.get(&self.marker).is_some() {
+            Err(InputPluginError::InputPluginFailed(format!("query carries {}", self.marker)))
+        } else {
+            Ok(())
+        }
+    }
+}
+
+/// user-defined plugin: breaks the invariant of the query state when the query says so under `key`
+pub struct UserBreaker {
+    pub key: String,
+}
+
+impl InputPlugin for UserBreaker {
+    fn process(&self, input: &mut Value) -> Result<(), InputPluginError> {
+        let mode = input.get(&self.key).and_then(|v| v.as_str()).map(|s| s.to_string());
+        match mode.as_deref() {
+            Some("scalar") => *input = json!(7),
+            Some("null") => *input = Value::Null,
+            Some("nested") => *input = json!([[input.clone()]]),
+            Some("empty") => *input = json!([]),
+            Some("mixed") => *input = json!([input.clone(), [input.clone()]]),
+            _ => {}
+        }
+        Ok(())
+    }
 }
 
 impl PluginSpec {
+    fn user(&self) -> bool {
+        matches!(self, PluginSpec::UserSplit { .. } | PluginSpec::UserFailOn { .. } | PluginSpec::UserBreaker { .. })
+    }
+    fn user_plugin(&self) -> Option<Arc<dyn InputPlugin>> {
+        match self {
+            PluginSpec::UserSplit { key } => Some(Arc::new(UserSplit { key: key.clone() })),
+            PluginSpec::UserFailOn { marker } => Some(Arc::new(UserFailOn { marker: marker.clone() })),
+            PluginSpec::UserBreaker { key } => Some(Arc::new(UserBreaker { key: key.clone() })),
+            _ => None,
+        }
+    }
     fn opaque(&self) -> bool {
         matches!(self, PluginSpec::LbHaversine | PluginSpec::VertexRtree { .. } | PluginSpec::EdgeRtree { .. })
     }
@@ -166,6 +260,9 @@ impl PluginSpec {
             PluginSpec::LbHaversine => "lb_haversine",
             PluginSpec::VertexRtree { .. } => "vertex_rtree",
             PluginSpec::EdgeRtree { .. } => "edge_rtree",
+            PluginSpec::UserSplit { .. } => "user_split",
+            PluginSpec::UserFailOn { .. } => "user_fail_on",
+            PluginSpec::UserBreaker { .. } => "user_breaker",
         }
     }
     fn toml(&self, dir: &str) -> String {
@@ -197,6 +294,8 @@ impl PluginSpec {
                 let t = tolerance_m.map(|t| format!(", distance_tolerance = {:?}, distance_unit = \"meters\"", t)).unwrap_or_default();
                 format!("{{ type = \"edge_rtree\", geometry_input_file = \"{}/geoms.txt\"{} }}", dir, t)
             }
+            // not part of the configuration file
+            PluginSpec::UserSplit { .. } | PluginSpec::UserFailOn { .. } | PluginSpec::UserBreaker { .. } => String::new(),
         }
     }
     /// the plugin as the model sees it (opaque ones: the recorded table)
@@ -218,6 +317,9 @@ impl PluginSpec {
                 }
                 s
             }
+            PluginSpec::UserSplit { key } => format!("usplit {}", hex(key)),
+            PluginSpec::UserFailOn { marker } => format!("ufail {}", hex(marker)),
+            PluginSpec::UserBreaker { key } => format!("ubreak {}", hex(key)),
             _ => {
                 let empty = vec![];
                 let t = table.unwrap_or(&empty);
@@ -281,7 +383,7 @@ pub fn config_toml(dir: &Path, parallelism: usize, traversal: Traversal, plugins
         Some(l) => format!("[termination]\ntype = \"solution_size\"\nlimit = {}\n", l),
         None => String::new(),
     };
-    let ps: Vec<String> = plugins.iter().map(|p| p.toml(d)).collect();
+    let ps: Vec<String> = plugins.iter().filter(|p| !p.user()).map(|p| p.toml(d)).collect();
     format!(
         r#"parallelism = {parallelism}
 search_orientation = "{orient}"
@@ -493,6 +595,17 @@ pub enum RunOut {
     Dead,
 }
 
+/// the item-by-item expansion of one query with the real plugins
+#[derive(Clone, Debug)]
+pub struct Ideal {
+    /// items on which a plugin failed (each one error response of its own)
+    pub dead: usize,
+    /// surviving items that are not objects
+    pub nonobj: usize,
+    /// encoded canonical responses of the surviving object items, run alone
+    pub live: Vec<String>,
+}
+
 #[derive(Default, Debug)]
 pub struct Report {
     pub jobs: Vec<RunOut>,
@@ -501,7 +614,7 @@ pub struct Report {
     /// each batch query run alone under the discard policy
     pub alone_discard: Vec<RunOut>,
     /// number of responses under element-wise semantics (real plugins applied item by item)
-    pub ideal: Vec<Option<usize>>,
+    pub ideal: Vec<Option<Ideal>>,
     /// input stage of each query alone: `Ok(n expanded)` or `Err(encoded canonical error response)`
     pub pipe: Vec<Option<Result<usize, String>>>,
     /// recorded tables, by plugin index
@@ -556,7 +669,7 @@ fn call_run(app: &CompassApp, batch: Vec<Value>, cfg: Option<&Value>, pool: usiz
 
 /// number of responses if every item were handled on its own: a failing item yields one error response and its
 /// siblings go on; an array result is replaced by its elements; every surviving item yields one response
-fn ideal_count(plugins: &[Arc<dyn InputPlugin>], q: &Value) -> Option<usize> {
+fn itemwise(plugins: &[Arc<dyn InputPlugin>], q: &Value) -> Option<(usize, Vec<Value>)> {
     let r = std::panic::catch_unwind(std::panic::AssertUnwindSafe(|| {
         let mut items = vec![q.clone()];
         let mut dead = 0usize;
@@ -573,7 +686,7 @@ fn ideal_count(plugins: &[Arc<dyn InputPlugin>], q: &Value) -> Option<usize> {
             }
             items = next;
         }
-        dead + items.len()
+        (dead, items)
     }));
     r.ok()
 }
@@ -648,8 +761,24 @@ fn child_work(fx: &Fixture, batch: &[Value], jobs: &[Job], want_alone: bool, emi
                 }
             }
         }
-        match ideal_count(&app.input_plugins, q) {
-            Some(n) => emit(format!("I {} {}", i, n)),
+        // the item-by-item expansion with the real plugins, and the real single-query answer of every expanded query
+        match itemwise(&app.input_plugins, q) {
+            Some((dead, items)) => {
+                let nonobj = items.iter().filter(|x| !x.is_object()).count();
+                let mut line = format!("I {} {} {} {}", i, dead, nonobj, items.len() - nonobj);
+                for e in items.iter().filter(|x| x.is_object()) {
+                    let resp = std::panic::catch_unwind(std::panic::AssertUnwindSafe(|| {
+                        run_single_query(e, &app.search_orientation, &app.output_plugins, &app.search_app)
+                    }));
+                    let c = match resp {
+                        Ok(Ok(v)) => canon_response(&v),
+                        _ => json!({"request": e, "error": "RunSingleQueryFailed"}),
+                    };
+                    line.push(' ');
+                    line.push_str(&enc(&c));
+                }
+                emit(line);
+            }
             None => emit(format!("I {} panic", i)),
         }
     }
@@ -708,7 +837,14 @@ fn parse_report(text: &str, n_jobs: usize, n_batch: usize, want_alone: bool) -> 
                 let (i, r) = rest.split_once(' ').unwrap_or((rest, ""));
                 if let Ok(i) = i.parse::<usize>() {
                     if i < rep.ideal.len() {
-                        rep.ideal[i] = r.parse().ok();
+                        let mut t = r.splitn(4, ' ');
+                        if let (Some(Ok(dead)), Some(Ok(nonobj)), Some(Ok(_n))) = (t.next().map(|x| x.parse::<usize>()), t.next().map(|x| x.parse::<usize>()), t.next().map(|x| x.parse::<usize>())) {
+                            let live = match parse_run_out(&format!("ok {} {}", _n, t.next().unwrap_or(""))) {
+                                RunOut::Ok(v) => v,
+                                _ => vec![],
+                            };
+                            rep.ideal[i] = Some(Ideal { dead, nonobj, live });
+                        }
                     }
                 }
             }
@@ -845,6 +981,9 @@ pub struct GenQ {
 const INJECT_KEY: &str = "injected";
 const LB_COL: &str = "w";
 const CAT_COL: &str = "cls";
+const ALTS_KEY: &str = "alts";
+const MARK_KEY: &str = "poison";
+const BREAK_KEY: &str = "break";
 
 impl Fixture {
     fn has(&self, f: impl Fn(&PluginSpec) -> bool) -> bool {
@@ -1242,7 +1381,83 @@ fn mutated_query(fx: &Fixture, rng: &mut Rng) -> GenQ {
     g
 }
 
+impl Fixture {
+    fn has_user(&self) -> bool {
+        self.has(|p| p.user())
+    }
+}
+
+/// the value of an `alts` field: mostly a non-empty array of overlays, sometimes empty / not an array / scalars
+fn alts_value(fx: &Fixture, rng: &mut Rng, depth: usize) -> Value {
+    let core = fx.core();
+    match rng.below(10) {
+        0 => json!([]),
+        1 => json!("not an array"),
+        2 => json!([rng.below(core), "x"]),
+        _ => {
+            let n = 1 + rng.below(3);
+            Value::Array((0..n).map(|j| {
+                let mut o = Map::new();
+                o.insert("alt_no".into(), json!(j));
+                if !fx.matcher() && rng.chance(2, 3) {
+                    o.insert(if fx.edge_oriented { "destination_edge" } else { "destination_vertex" }.into(), json!(rng.below(core)));
+                }
+                user_keys(fx, rng, &mut o, depth);
+                Value::Object(o)
+            }).collect())
+        }
+    }
+}
+
+/// sprinkle the keys the user-defined plugins react to: only SOME objects get them
+fn user_keys(fx: &Fixture, rng: &mut Rng, o: &mut Map<String, Value>, depth: usize) {
+    if rng.chance(1, 6) {
+        o.insert(MARK_KEY.into(), json!(true));
+    }
+    if rng.chance(1, 6) {
+        o.insert(BREAK_KEY.into(), json!(["scalar", "null", "nested", "empty", "mixed", "none"][rng.below(6)]));
+    }
+    if depth > 0 && rng.chance(1, 4) {
+        o.insert(ALTS_KEY.into(), alts_value(fx, rng, depth - 1));
+    }
+}
+
+/// queries for the configurations with user-defined plugins: top-level `alts`, and grid options of which only some
+/// carry `alts` / the marker / a break instruction, so that the query state mixes plain queries and nested arrays
+fn user_plugin_query(fx: &Fixture, rng: &mut Rng) -> GenQ {
+    let base = valid_query(fx, rng);
+    let mut m = base.q.as_object().cloned().unwrap_or_default();
+    match rng.below(4) {
+        0 => {
+            m.insert(ALTS_KEY.into(), alts_value(fx, rng, 1));
+            user_keys(fx, rng, &mut m, 0);
+        }
+        1 => user_keys(fx, rng, &mut m, 1),
+        _ => {
+            // a grid whose options differ in what they carry
+            let n = 2 + rng.below(3);
+            let opts: Vec<Value> = (0..n).map(|j| {
+                let mut o = Map::new();
+                o.insert("variant".into(), json!(j));
+                if rng.chance(1, 2) {
+                    o.insert(ALTS_KEY.into(), alts_value(fx, rng, 1));
+                }
+                user_keys(fx, rng, &mut o, 0);
+                Value::Object(o)
+            }).collect();
+            m.insert("grid_search".into(), json!({"_o": opts}));
+            if rng.chance(1, 3) {
+                m.insert(ALTS_KEY.into(), alts_value(fx, rng, 0));
+            }
+        }
+    }
+    GenQ { q: Value::Object(m), expect: Expect::Any, kind: "user_plugin_keys", danger: None, fail_key: None }
+}
+
 fn gen_query(fx: &Fixture, rng: &mut Rng, profile: Profile) -> GenQ {
+    if fx.has_user() && rng.chance(3, 5) {
+        return user_plugin_query(fx, rng);
+    }
     let r = rng.below(100);
     match profile {
         Profile::C06 => match r {
@@ -1421,7 +1636,7 @@ fn writable_keys(fx: &Fixture) -> HashSet<String> {
                 s.insert("origin_edge".into());
                 s.insert("destination_edge".into());
             }
-            PluginSpec::Grid => {}
+            PluginSpec::Grid | PluginSpec::UserSplit { .. } | PluginSpec::UserFailOn { .. } | PluginSpec::UserBreaker { .. } => {}
         }
     }
     s
@@ -1527,8 +1742,9 @@ fn run_case(ctx: &mut Ctx, fx: &Fixture, persist_cfg: bool, gens: &[GenQ], plans
                 ctx.fail(first_idx, "response/total-cost", format!("{} in the response to {}", c, clip(&g.q.to_string())));
             }
         }
-        // every query is answered
-        if resp.is_empty() {
+        // every query is answered (object queries: checked against the item-by-item expansion below — a user-defined
+        // plugin may legitimately expand a query into nothing)
+        if resp.is_empty() && !g.q.is_object() {
             ctx.fail(first_idx, "pipeline/query-unanswered", format!("query {} got no response at all under {}", clip(&g.q.to_string()), fx.label));
         }
         // the discard policy keeps exactly the error responses of the input stage: a subset of the responses, all
@@ -1550,20 +1766,46 @@ fn run_case(ctx: &mut Ctx, fx: &Fixture, persist_cfg: bool, gens: &[GenQ], plans
                 ctx.fail(first_idx, "batch/discard-policy", format!("query {} alone under the discard policy returns {} response(s) (subset of the persisted ones: {}, all errors: {}, rejected by input processing: {})", clip(&g.q.to_string()), d.len(), subset, all_err, rejected));
             }
         }
-        // exactly one response per expanded query (object queries: what a non-object expands into is not defined)
-        if let (Some(ideal), true) = (rep.ideal[i], g.q.is_object()) {
-            if resp.len() < ideal {
-                ctx.fail(first_idx, "pipeline/sibling-responses-lost", format!("query {} expands (item by item, real plugins) into {} queries but only {} response(s) came back under {}: {}", clip(&g.q.to_string()), ideal, resp.len(), fx.label, clip(&Value::Array(resp.clone()).to_string())));
-            } else if resp.len() > ideal {
-                ctx.fail(first_idx, "batch/response-count", format!("query {} gave {} responses for {} expanded queries", clip(&g.q.to_string()), resp.len(), ideal));
+        // responses = ⨄ of the item-by-item answers, one response per expanded query (object queries: a non-object
+        // is answered by the guard)
+        let mut invariant_broken = false;
+        if let (Some(ideal), true) = (&rep.ideal[i], g.q.is_object()) {
+            let total = ideal.dead + ideal.nonobj + ideal.live.len();
+            let one_error = resp.len() == 1 && resp[0].get("error").is_some();
+            if ideal.dead == 0 && ideal.nonobj == 0 {
+                // no plugin fails, every expanded query is an object: exactly their answers
+                if sorted(ideal.live.clone()) != sorted(rs.clone()) {
+                    ctx.fail(first_idx, "pipeline/itemwise-mismatch", format!("query {} expands (item by item, real plugins, none failing) into {} queries, but the {} response(s) that came back under {} are not their answers: {}", clip(&g.q.to_string()), ideal.live.len(), resp.len(), fx.label, clip(&Value::Array(resp.clone()).to_string())));
+                }
+            } else if ideal.nonobj > 0 && ideal.dead == 0 {
+                // a plugin broke the invariant (an expanded "query" that is not an object): the pipeline answers the
+                // whole query with one invariant error and the placeholder request (known finding)
+                invariant_broken = true;
+                if one_error && resp[0].get("error") == Some(&json!("Invariant")) {
+                    ctx.fail(first_idx, "pipeline/invariant-error-loses-request", format!("a plugin left {} non-object item(s) among the {} queries that {} expands into: the whole query is answered with one invariant error whose request is the placeholder, under {}", ideal.nonobj, total, clip(&g.q.to_string()), fx.label));
+                } else {
+                    ctx.fail(first_idx, "pipeline/itemwise-mismatch", format!("query {} (a plugin left {} non-object items): expected one invariant error, got {}", clip(&g.q.to_string()), ideal.nonobj, clip(&Value::Array(resp.clone()).to_string())));
+                }
+            } else {
+                // a plugin fails on some expanded query: the first failure ends the whole query (known finding when
+                // there were siblings)
+                invariant_broken = ideal.nonobj > 0;
+                if !one_error {
+                    ctx.fail(first_idx, "pipeline/itemwise-mismatch", format!("query {} (a plugin fails on {} of its {} expanded queries): expected one error response, got {}", clip(&g.q.to_string()), ideal.dead, total, clip(&Value::Array(resp.clone()).to_string())));
+                } else if total > 1 {
+                    ctx.fail(first_idx, "pipeline/sibling-responses-lost", format!("query {} expands (item by item, real plugins) into {} queries, a plugin fails on {} of them, and only {} response came back under {}: {}", clip(&g.q.to_string()), total, ideal.dead, resp.len(), fx.label, clip(&Value::Array(resp.clone()).to_string())));
+                }
+            }
+            if resp.is_empty() && total > 0 {
+                ctx.fail(first_idx, "pipeline/query-unanswered", format!("query {} got no response at all under {}", clip(&g.q.to_string()), fx.label));
             }
         }
         // each response carries the request it answers
-        if g.q != placeholder() && resp.iter().any(|r| r.get("request") == Some(&placeholder())) {
+        if !invariant_broken && g.q != placeholder() && resp.iter().any(|r| r.get("request") == Some(&placeholder())) {
             ctx.fail(first_idx, "pipeline/request-not-echoed", format!("query {} is answered with request {} (the query appears only in the error text) under {}", clip(&g.q.to_string()), placeholder(), fx.label));
         }
         if let Value::Object(qm) = &g.q {
-            if !qm.contains_key("grid_search") || !fx.has_grid() {
+            if (!qm.contains_key("grid_search") || !fx.has_grid()) && !fx.has(|p| matches!(p, PluginSpec::UserSplit { .. } | PluginSpec::UserBreaker { .. })) {
                 for r in &resp {
                     let Some(Value::Object(req)) = r.get("request") else { continue };
                     if req == placeholder().as_object().unwrap() {
@@ -1742,7 +1984,20 @@ fn make_fixture(root: &Path, id: usize, rng: &mut Rng, label: &str, plugins: Vec
     write_net(&dir, &net);
     let toml = config_toml(&dir, parallelism, traversal, &plugins, persist, edge_oriented, solution_limit);
     match build_app(&dir, &toml) {
-        Ok(app) => Some((Fixture { net, dir, plugins, traversal, edge_oriented, solution_limit, app, label: label.to_string() }, persist)),
+        Ok(mut app) => {
+            let mut built = std::mem::take(&mut app.input_plugins).into_iter();
+            for spec in &plugins {
+                match spec.user_plugin() {
+                    Some(p) => app.input_plugins.push(p),
+                    None => {
+                        if let Some(p) = built.next() {
+                            app.input_plugins.push(p);
+                        }
+                    }
+                }
+            }
+            Some((Fixture { net, dir, plugins, traversal, edge_oriented, solution_limit, app, label: label.to_string() }, persist))
+        }
         Err(e) => {
             eprintln!("C06 harness: cannot build fixture {}: {}", label, e);
             None
@@ -1753,6 +2008,9 @@ fn make_fixture(root: &Path, id: usize, rng: &mut Rng, label: &str, plugins: Vec
 fn plugin_configs() -> Vec<(&'static str, Vec<PluginSpec>, bool)> {
     let inj = |ow: Option<bool>| PluginSpec::Inject { key: INJECT_KEY.to_string(), value: json!({"by": "config", "n": 7}), overwrite: ow };
     let cat = || PluginSpec::LbCat { col: Some(CAT_COL.to_string()), mapping: vec![("a".to_string(), 1.0), ("b".to_string(), 5.5), ("c".to_string(), 0.25)], default: Some(2.0) };
+    let split = || PluginSpec::UserSplit { key: ALTS_KEY.to_string() };
+    let fail = || PluginSpec::UserFailOn { marker: MARK_KEY.to_string() };
+    let breaker = || PluginSpec::UserBreaker { key: BREAK_KEY.to_string() };
     let cat_nodefault = || PluginSpec::LbCat { col: Some(CAT_COL.to_string()), mapping: vec![("a".to_string(), 1.0), ("b".to_string(), 3.0)], default: None };
     vec![
         ("none", vec![], false),
@@ -1771,6 +2029,18 @@ fn plugin_configs() -> Vec<(&'static str, Vec<PluginSpec>, bool)> {
         ("edge_rtree", vec![PluginSpec::EdgeRtree { tolerance_m: Some(80.0) }], true),
         ("none_edge_oriented", vec![], true),
         ("grid+inject+lb_numeric", vec![PluginSpec::Grid, inj(Some(true)), PluginSpec::LbNum { col: Some(LB_COL.to_string()) }], false),
+        // user-defined plugins (public trait, public `input_plugins` field): expand only SOME queries, fail on some,
+        // break the invariant
+        ("user_split", vec![split()], false),
+        ("grid+user_split", vec![PluginSpec::Grid, split()], false),
+        ("user_split+grid", vec![split(), PluginSpec::Grid], false),
+        ("grid+user_split+user_fail", vec![PluginSpec::Grid, split(), fail()], false),
+        ("user_fail+grid+user_split", vec![fail(), PluginSpec::Grid, split()], false),
+        ("user_split+inject_no_overwrite+lb_numeric", vec![split(), inj(Some(false)), PluginSpec::LbNum { col: Some(LB_COL.to_string()) }], false),
+        ("grid+user_split+vertex_rtree", vec![PluginSpec::Grid, split(), PluginSpec::VertexRtree { tolerance_m: None }], false),
+        ("user_breaker", vec![breaker()], false),
+        ("grid+user_breaker+user_split", vec![PluginSpec::Grid, breaker(), split()], false),
+        ("user_split+user_breaker+user_fail", vec![split(), breaker(), fail()], false),
     ]
 }
 
@@ -2001,6 +2271,32 @@ pub fn run(ctx: &mut Ctx, profile: Profile) -> &'static str {
             gq(json!([[]]), Expect::Any, "non_object", None),
         ];
         run_case(ctx, fx, *pc, &b, simple(vec![None, Some(2)], 4), "corpus_array_query", 20);
+    }
+    if let Some(i) = find("grid+user_split") {
+        let (fx, pc) = &fixtures[i];
+        // mixed query state: grid search makes three children, the user-defined split expands only the middle one
+        // ([a, [b1, b2], c] must be de-nested: one response per expanded child) — seeded change C06_flatten_not_all_arrays
+        let b = vec![
+            gq(json!({"origin_vertex": 0, "destination_vertex": 2, "grid_search": {"variant": [{"name": "a"}, {"name": "b", "alts": [{"destination_vertex": 1}, {"destination_vertex": 2}]}, {"name": "c"}]}}), Expect::Any, "user_plugin_keys", None),
+            gq(json!({"origin_vertex": 0, "destination_vertex": 1, "name": "plain"}), Expect::Ok, "valid_route", None),
+            gq(json!({"origin_vertex": 1, "alts": [{"destination_vertex": 3}, {"destination_vertex": 4, "alts": "ignored"}, 5]}), Expect::Any, "user_plugin_keys", None),
+        ];
+        run_case(ctx, fx, *pc, &b, simple(vec![None, Some(1), Some(3)], 3), "corpus_mixed_state", 20);
+    }
+    if let Some(i) = find("user_breaker") {
+        let (fx, pc) = &fixtures[i];
+        // a user-defined plugin that breaks the invariant: invariant errors (placeholder request, known finding),
+        // an erased query, a two-level nesting, a mixed state made by one plugin
+        let b: Vec<GenQ> = ["scalar", "null", "nested", "empty", "mixed", "none"].iter().map(|m| gq(json!({"origin_vertex": 0, "destination_vertex": 3, "break": m}), Expect::Any, "user_plugin_keys", None)).collect();
+        run_case(ctx, fx, *pc, &b, simple(vec![None, Some(2)], 6), "corpus_invariant_breaker", 20);
+    }
+    if let Some(i) = find("grid+user_breaker+user_split") {
+        let (fx, pc) = &fixtures[i];
+        let b = vec![
+            gq(json!({"origin_vertex": 0, "grid_search": {"_o": [{"destination_vertex": 1, "break": "mixed"}, {"destination_vertex": 2}, {"destination_vertex": 3, "break": "nested", "alts": [{"k": 1}, {"k": 2}]}]}}), Expect::Any, "user_plugin_keys", None),
+            gq(json!({"origin_vertex": 0, "grid_search": {"_o": [{"destination_vertex": 1}, {"destination_vertex": 2, "break": "scalar"}]}}), Expect::Any, "user_plugin_keys", None),
+        ];
+        run_case(ctx, fx, *pc, &b, simple(vec![None], 2), "corpus_invariant_breaker", 20);
     }
     if let Some(i) = find("grid+inject_no_overwrite") {
         let (fx, pc) = &fixtures[i];
